@@ -1,5 +1,381 @@
-(* C09 — placeholder while the development is being built; replaced by the property theorems. *)
-From Coq Require Import List ZArith NArith Bool.
-From TM Require Import Generated.Consts C07.Model C09.Model.
-Theorem C09_placeholder : True. Proof. exact I. Qed.
-Print Assumptions C09_placeholder.
+(* C09 — The light client only trusts headers reachable by valid verification steps.
+   Only the property statements; each is closed by [exact] of a lemma of Proofs.v /
+   ProofsStore.v and followed by Print Assumptions.
+
+   Reading guide.  Everything is stated for an arbitrary signature check [sv], arbitrary hash
+   functions [hash] (Header.Hash), [vhash] (ValidatorSet.Hash), [bid_hash] (BlockID.Hash), an
+   arbitrary world type [W] with an arbitrary provider oracle [ask : W -> provider -> height ->
+   answer * W] (providers may answer anything, adaptively, differently each time), and an
+   arbitrary arrival order [rank] of the concurrent witness answers.  The model is of the code
+   with the two repairs F2 and F23 (see C09/Model.v); the examples at the end show that both
+   statements fail for the unrepaired variants.
+
+   step_ok P t u now — the clause list of the property for one step from trusted block t to u:
+     u is well formed for t's chain and its commit is for this header; u is later in height and in
+     time; u's time is before now + MaxClockDrift; t is within the trusting period at [now]; the
+     delivered validator set is the one u's header commits to; more than 2/3 of u's own set signed
+     exactly (chain, height, round, block id) (C07.good_tally); and either u is adjacent and its
+     ValidatorsHash is t's NextValidatorsHash, or distinct members of t's set with verified
+     signatures in u's commit hold more than the trust level of t's set (C07.member_signed, pw).
+     (The two signature clauses are stated for well-formed sets: no negative power, total at most
+     MaxTotalVotingPower; trust level numerator/denominator within int64 — C07's premises.)
+   back_ok u t — the clause list of a backwards step: u well formed, same chain, earlier in time,
+     and hash u is t's LastBlockID.Hash.
+   Trusted P root h — header hash h is reachable from the root hash by such steps.  Headers BELOW
+     the first trusted height are admitted by hash-linking (back_ok) only: no signature is
+     checked on that path; "later in height" of the informal statement does not apply to them. *)
+From Coq Require Import List ZArith NArith Bool Permutation.
+From TM Require Import Generated.Consts C07.Model C07.Proofs C09.Model C09.Proofs C09.ProofsStore.
+Import ListNotations.
+Open Scope Z_scope.
+
+(* ---- one verification step ------------------------------------------------------------------ *)
+
+(* light.Verify (adjacent or not) accepts only if every clause of the property holds for the step. *)
+Theorem C09_verify_sound :
+  forall (sig : Type) (sv : key -> signmsg -> sig -> bool) (hash : header -> Z)
+         (vhash : list validator -> Z) (bid_hash : blockid -> Z)
+         (P : params) (t u : lblock sig) (now : Z),
+    verify sig sv hash vhash bid_hash P t (lb_vals sig t) u now = E_ok ->
+    step_ok sig sv hash vhash bid_hash P t u now.
+Proof. exact verify_sound. Qed.
+Print Assumptions C09_verify_sound.
+
+(* light.VerifyBackwards accepts only a header that the trusted header's LastBlockID points to. *)
+Theorem C09_verify_backwards_sound :
+  forall (hash : header -> Z) (u t : header),
+    verify_backwards hash u t = true -> back_ok hash u t.
+Proof. exact verify_backwards_sound. Qed.
+Print Assumptions C09_verify_backwards_sound.
+
+(* ---- bisection ------------------------------------------------------------------------------- *)
+
+(* verifySkipping (pivot 9/16, block cache with its duplicated append, any fuel) returns a trace
+   only if the trace starts with the trusted block, ends with the requested block, and every
+   consecutive pair was accepted by Verify: bisection concludes only from Verify successes,
+   whatever the source provider answered. *)
+Theorem C09_skipping_refines_verify :
+  forall (sig : Type) (sv : key -> signmsg -> sig -> bool) (hash : header -> Z)
+         (vhash : list validator -> Z) (bid_hash : blockid -> Z)
+         (W : Type) (ask : W -> pid -> Z -> preply sig * W)
+         (P : params) (source : pid) (s : st sig W) (t u : lblock sig) (now : Z)
+         (tr : list (lblock sig)) (s' : st sig W),
+    verify_skipping sig sv hash vhash bid_hash W ask P source s t u now = (inl tr, s') ->
+    linked (fun a b => verify sig sv hash vhash bid_hash P a (lb_vals sig a) b now = E_ok) tr /\
+    exists mid, tr = t :: mid ++ [u].
+Proof. exact skipping_refines. Qed.
+Print Assumptions C09_skipping_refines_verify.
+
+(* ---- the trusted store ------------------------------------------------------------------------ *)
+
+(* After NewClient (trust root = hash [root] at height th) and ANY sequence of
+   VerifyLightBlockAtHeight / Update calls, in sequential or skipping mode, against ANY provider
+   behaviour (wrong, missing, late, conflicting, equivocating answers, primary replacement) and
+   ANY arrival order of witness answers, every light block in the trusted store has a header hash
+   that is reachable from the root hash by valid steps, and carries the validator set its header
+   commits to.  Premise: providers hand over blocks whose validator set matches the header
+   (LightBlock.ValidateBasic, performed by light/provider/http and light/provider/mock). *)
+Theorem C09_store_sound :
+  forall (sig : Type) (sv : key -> signmsg -> sig -> bool) (hash : header -> Z)
+         (vhash : list validator -> Z) (bid_hash : blockid -> Z)
+         (W : Type) (ask : W -> pid -> Z -> preply sig * W) (rank : pid -> Z)
+         (P : params) (root : Z),
+    provider_contract sig vhash W ask ->
+    forall (prim : pid) (ws : list pid) (s0 : st sig W) (th : Z) (c0 : client sig) (s1 : st sig W)
+           (ops : list op) (c : client sig) (s : st sig W),
+      initialize sig sv hash vhash bid_hash W ask rank P prim ws s0 th root = (None, c0, s1) ->
+      run_final sig sv hash vhash bid_hash W ask rank P c0 s1 ops = (c, s) ->
+      forall b, In b (cl_store sig c) ->
+        Trusted sig sv hash vhash bid_hash P root (lb_hash sig hash b) /\ vals_bound sig vhash b.
+Proof.
+  intros sig sv hash vhash bid_hash W ask rank P root Hc prim ws s0 th c0 s1 ops c s.
+  exact (store_sound sig sv hash vhash bid_hash W ask rank P root Hc prim ws s0 th c0 s1 ops c s).
+Qed.
+Print Assumptions C09_store_sound.
+
+(* backwards (repaired, F23): success means the hash of the header that will be stored is the
+   hash of a header reached from the first trusted header by hash-linking steps, whatever the
+   primary (and its replacements) answered. *)
+Theorem C09_backwards_sound :
+  forall (sig : Type) (hash : header -> Z) (W : Type) (ask : W -> pid -> Z -> preply sig * W)
+         (rank : pid -> Z) (fuel : nat) (c : client sig) (s : st sig W) (verified newh : header)
+         (c' : client sig) (s' : st sig W),
+    backwards sig hash W ask rank fuel c s verified newh = (None, c', s') ->
+    exists v, back_reach hash verified v /\ hash v = hash newh.
+Proof. exact backwards_sound. Qed.
+Print Assumptions C09_backwards_sound.
+
+(* ---- the witness cross-check -------------------------------------------------------------------- *)
+
+(* detectDivergence (repaired, F2) returns nil only if, in this very round, one of the current
+   witnesses answered with a block whose header hash is the hash of the verified header. *)
+Theorem C09_confirmation_requires_match :
+  forall (sig : Type) (sv : key -> signmsg -> sig -> bool) (hash : header -> Z)
+         (vhash : list validator -> Z) (bid_hash : blockid -> Z)
+         (W : Type) (ask : W -> pid -> Z -> preply sig * W) (rank : pid -> Z)
+         (P : params) (c : client sig) (s : st sig W) (t0 : lblock sig) (rest : list (lblock sig))
+         (now : Z) (c' : client sig) (s' : st sig W),
+    detect_divergence sig sv hash vhash bid_hash W ask rank P c s (t0 :: rest) now = (None, c', s') ->
+    let target := last (t0 :: rest) t0 in
+    exists msgs s1 pre,
+      compare_all sig hash W ask s target (arrival_order rank (cl_witnesses sig c)) = (msgs, s1) /\
+      st_log sig W s1 = pre ++ st_log sig W s /\
+      exists w h b, In w (cl_witnesses sig c) /\ In (w, h, P_block sig b) pre /\
+                    lb_hash sig hash b = lb_hash sig hash target.
+Proof. exact confirmation_requires_match. Qed.
+Print Assumptions C09_confirmation_requires_match.
+
+(* A witness goroutine sends nil only after this witness answered, in this comparison, with a
+   block of the identical header hash: no response, "not found", a lagging witness, a context
+   error, an invalid block or a different header never turn into a confirmation. *)
+Theorem C09_nil_only_for_identical_header :
+  forall (sig : Type) (hash : header -> Z) (W : Type) (ask : W -> pid -> Z -> preply sig * W)
+         (s : st sig W) (target : lblock sig) (w : pid) (i : nat) (msgs : list (msg sig)) (s' : st sig W),
+    compare_new_header_with_witness sig hash W ask s target w i = (msgs, s') ->
+    exists pre, st_log sig W s' = pre ++ st_log sig W s /\
+      (In (M_nil sig) msgs ->
+       exists h b, In (w, h, P_block sig b) pre /\ lb_hash sig hash b = lb_hash sig hash target).
+Proof. exact compare_nil_match. Qed.
+Print Assumptions C09_nil_only_for_identical_header.
+
+(* If detectDivergence returns nil, every witness whose message was a conflicting header (it could
+   not be verified, else the attack error below) or an invalid block has been removed from the
+   witness list. *)
+Theorem C09_conflict_yields_removal :
+  forall (sig : Type) (sv : key -> signmsg -> sig -> bool) (hash : header -> Z)
+         (vhash : list validator -> Z) (bid_hash : blockid -> Z)
+         (W : Type) (ask : W -> pid -> Z -> preply sig * W) (rank : pid -> Z)
+         (P : params) (c : client sig) (s : st sig W) (t0 : lblock sig) (rest : list (lblock sig))
+         (now : Z) (c' : client sig) (s' : st sig W),
+    detect_divergence sig sv hash vhash bid_hash W ask rank P c s (t0 :: rest) now = (None, c', s') ->
+    exists msgs s1 rm,
+      compare_all sig hash W ask s (last (t0 :: rest) t0) (arrival_order rank (cl_witnesses sig c)) = (msgs, s1) /\
+      rm = removed sig (firstn (length (cl_witnesses sig c)) msgs) /\
+      remove_witnesses (cl_witnesses sig c) rm = Some (cl_witnesses sig c') /\
+      (forall b i, In (M_conflict sig b i) (firstn (length (cl_witnesses sig c)) msgs) -> In i rm).
+Proof. exact trusted_removes_conflicting. Qed.
+Print Assumptions C09_conflict_yields_removal.
+
+(* A conflicting header that the witness can back (examineConflictingHeaderAgainstTrace succeeds)
+   ends the loop with the attack verdict ... *)
+Theorem C09_conflict_yields_attack :
+  forall (sig : Type) (S : Type) (handle : S -> lblock sig -> nat -> hc_result * S)
+         (msgs : list (msg sig)) (s : S) (matched : bool) (rm : list nat) (s' : S),
+    detect_loop sig handle s msgs matched rm = (DD_attack, s') ->
+    exists sa b i, In (M_conflict sig b i) msgs /\ handle sa b i = (HC_attack, s').
+Proof. intros sig S handle. exact (detect_loop_attack sig handle). Qed.
+Print Assumptions C09_conflict_yields_attack.
+
+(* ... and ErrLightClientAttack is returned only after evidence against the primary has been
+   reported to that witness.  (Evidence against the witness is sent to the primary when the
+   primary answers the reverse examination; that direction is best effort in the code.) *)
+Theorem C09_attack_has_evidence :
+  forall (sig : Type) (sv : key -> signmsg -> sig -> bool) (hash : header -> Z)
+         (vhash : list validator -> Z) (bid_hash : blockid -> Z)
+         (W : Type) (ask : W -> pid -> Z -> preply sig * W) (rank : pid -> Z)
+         (P : params) (c : client sig) (s : st sig W) (trace : list (lblock sig)) (now : Z)
+         (c' : client sig) (s' : st sig W),
+    detect_divergence sig sv hash vhash bid_hash W ask rank P c s trace now = (Some X_attack, c', s') ->
+    exists i e, In (nth i (cl_witnesses sig c) 0, e) (st_ev sig W s').
+Proof. exact attack_has_evidence. Qed.
+Print Assumptions C09_attack_has_evidence.
+
+(* The verdict "trusted" of the detector loop does not depend on the order in which the witness
+   messages arrive (for examinations whose outcome does not depend on that order), and the
+   removal lists are rearrangements of each other. *)
+Theorem C09_order_independent :
+  forall (sig : Type) (hv : lblock sig -> nat -> hc_result) (msgs msgs' : list (msg sig)),
+    Permutation msgs msgs' ->
+    (is_trusted (pure_loop sig hv msgs false []) <-> is_trusted (pure_loop sig hv msgs' false [])) /\
+    Permutation (removed sig msgs) (removed sig msgs').
+Proof.
+  intros sig hv msgs msgs' Hp. split; [apply order_independent; exact Hp | apply removed_perm; exact Hp].
+Qed.
+Print Assumptions C09_order_independent.
+
+(* The loop says "trusted" iff a nil message was read, no conflicting header was backed, and no
+   context error arrived. *)
+Theorem C09_trusted_iff :
+  forall (sig : Type) (hv : lblock sig -> nat -> hc_result) (msgs : list (msg sig)),
+    is_trusted (pure_loop sig hv msgs false []) <->
+    (In (M_nil sig) msgs /\ Forall (msg_fine sig hv) msgs).
+Proof.
+  intros sig hv msgs. rewrite (pure_loop_trusted_iff sig hv msgs false []).
+  split; [intros [[H|H] F]; [discriminate | split; assumption] | intros [H F]; split; [right; exact H | exact F]].
+Qed.
+Print Assumptions C09_trusted_iff.
+
+(* ---- non-vacuity and the two refuted statements (closed computations) ---------------------- *)
+
+Definition xP : params :=
+  {| p_chain := 7; p_period := 1000; p_drift := 0; p_num := 1; p_den := 3;
+     p_sequential := false; p_prune := 0 |}.
+Definition xPseq : params :=
+  {| p_chain := 7; p_period := 1000; p_drift := 0; p_num := 1; p_den := 3;
+     p_sequential := true; p_prune := 0 |}.
+
+Definition setA : list validator :=
+  [ {| v_addr := 11; v_key := 11; v_power := 1 |}; {| v_addr := 12; v_key := 12; v_power := 1 |};
+    {| v_addr := 13; v_key := 13; v_power := 1 |} ].
+Definition setB : list validator :=
+  [ {| v_addr := 21; v_key := 21; v_power := 2 |}; {| v_addr := 22; v_key := 22; v_power := 1 |};
+    {| v_addr := 23; v_key := 23; v_power := 1 |} ].
+
+Definition xhash (h : header) : Z := h_tag h.
+Definition xvhash (vs : list validator) : Z := fold_left (fun a v => a * 31 + v_key v * 7 + v_power v) vs 0.
+Definition xbid (b : blockid) : Z := b.
+
+(* heights 1,2 have set A (next of 2 is B), heights 3..5 set B; everybody signs *)
+Definition set_at (h : Z) := if h <=? 2 then setA else setB.
+Definition xslot (h tag : Z) (v : validator) : commitsig isig :=
+  {| cs_flag := block_id_flag_commit; cs_addr := v_addr v; cs_ts := 0;
+     cs_sig := Signed (v_key v) (sign_msg 7 h 0 tag 0) |}.
+Definition xblk_with (h tag time : Z) (signers : list validator) : lblock isig :=
+  {| lb_hdr := {| h_chain := 7; h_height := h; h_time := time; h_last_bid := 100 + h - 1;
+                  h_vals_hash := xvhash (set_at h); h_next_vals_hash := xvhash (set_at (h + 1));
+                  h_cons := 0; h_app := 0; h_res := 0; h_fmt_ok := true; h_tag := tag |};
+     lb_commit := {| c_height := h; c_round := 0; c_bid := tag;
+                     c_sigs := map (xslot h tag) signers |};
+     lb_vals := set_at h; lb_vals_fmt_ok := true |}.
+Definition xblk (h : Z) : lblock isig := xblk_with h (100 + h) (10 * h) (set_at h).
+
+(* honest providers: the chain 1..5 *)
+Definition ask_honest (w : unit) (p : pid) (h : Z) : preply isig * unit :=
+  if h =? 0 then (P_block isig (xblk 5), w)
+  else if (1 <=? h) && (h <=? 5) then (P_block isig (xblk h), w)
+  else (P_err isig PE_not_found, w).
+
+Definition s0 {W} (w : W) : st isig W := {| st_w := w; st_log := []; st_ev := [] |}.
+Definition xrank (p : pid) : Z := p.
+
+(* the clause list is satisfiable: an adjacent and a non-adjacent step are accepted; exactly 1/3 of
+   the trusted power is NOT enough (trust level is strict), exactly 2/3 of the own set neither *)
+Example C09_verify_nonvacuous :
+  verify isig ideal_verify xhash xvhash xbid xP (xblk 1) setA (xblk 2) 60 = E_ok /\
+  verify isig ideal_verify xhash xvhash xbid xP (xblk 3) setB (xblk 5) 60 = E_ok /\
+  verify isig ideal_verify xhash xvhash xbid xP (xblk 1) setA (xblk 5) 60 = E_cant_trust /\
+  (* set B = powers 2,1,1: validator 22 alone holds exactly 1/4, 21 alone exactly 1/2 > 1/3 *)
+  verify isig ideal_verify xhash xvhash xbid xP (xblk 3) setB (xblk_with 5 105 50 setB) 60 = E_ok /\
+  (* a header from the future (time 50, now 50, drift 0) and an expired trusted header *)
+  verify isig ideal_verify xhash xvhash xbid xP (xblk 3) setB (xblk 5) 50 = E_invalid /\
+  verify isig ideal_verify xhash xvhash xbid xP (xblk 3) setB (xblk 5) 1030 = E_expired.
+Proof. vm_compute. repeat split; reflexivity. Qed.
+
+(* bisection really bisects: 1 -> 5 is verified through 2 and 3 *)
+Example C09_skipping_nonvacuous :
+  match verify_skipping isig ideal_verify xhash xvhash xbid unit ask_honest xP 1 (s0 tt) (xblk 1) (xblk 5) 60 with
+  | (inl tr, _) => map (lb_height isig) tr = [1; 2; 3; 5]
+  | _ => False
+  end.
+Proof. vm_compute. reflexivity. Qed.
+
+(* the hypotheses of C09_store_sound are satisfiable: a client rooted at height 3 verifies 5
+   (forwards, cross-checked by witnesses 2 and 3), then 1 (backwards), then 4 (between) *)
+Example C09_store_nonvacuous :
+  match initialize isig ideal_verify xhash xvhash xbid unit ask_honest xrank xP 1 [2; 3] (s0 tt) 3 103 with
+  | (None, c0, s1) =>
+    map (lb_height isig) (cl_store isig (fst (run_final isig ideal_verify xhash xvhash xbid unit ask_honest xrank xP
+                                                c0 s1 [Op_verify_at 5 60; Op_verify_at 1 60; Op_verify_at 4 60])))
+    = [1; 3; 4; 5]
+  | _ => False
+  end /\
+  provider_contract isig xvhash unit ask_honest.
+Proof.
+  split; [vm_compute; reflexivity|].
+  intros w p h b w' H. unfold ask_honest in H.
+  destruct (h =? 0); [injection H as <- _; vm_compute; reflexivity|].
+  destruct ((1 <=? h) && (h <=? 5)) eqn:E; [|discriminate].
+  injection H as <- _. unfold vals_bound, xblk, xblk_with. cbn [lb_hdr lb_vals h_vals_hash]. reflexivity.
+Qed.
+
+(* the same in sequential mode *)
+Example C09_store_nonvacuous_sequential :
+  match initialize isig ideal_verify xhash xvhash xbid unit ask_honest xrank xPseq 1 [2; 3] (s0 tt) 1 101 with
+  | (None, c0, s1) =>
+    map (lb_height isig) (cl_store isig (fst (run_final isig ideal_verify xhash xvhash xbid unit ask_honest xrank xPseq
+                                                c0 s1 [Op_verify_at 4 60; Op_update 60])))
+    = [1; 4; 5]
+  | _ => False
+  end.
+Proof. vm_compute. reflexivity. Qed.
+
+(* ---- F2: why compareNewHeaderWithWitness needs the `return` ----------------------------------- *)
+
+(* a liar's block for height 5 (different hash, signed by nobody the client knows) *)
+Definition liar5 : lblock isig := xblk_with 5 999 50 [].
+
+(* Unrepaired goroutine: after the conflict message it also sends nil.  With witnesses
+   [liar; silent] and the liar's messages arriving first, the loop reads [conflict; nil]: the
+   conflicting header cannot be verified (witness removed) and the header is TRUSTED although no
+   witness returned it.  The repaired goroutine sends the conflict only: not trusted. *)
+Example C09_confirmation_refuted_unfixed :
+  let unverifiable := fun (_ : unit) (_ : lblock isig) (_ : nat) => (HC_not_attack, tt) in
+  compare_hash_unfixed isig xhash (xblk 5) liar5 0 = [M_conflict isig liar5 0; M_nil isig] /\
+  fst (detect_loop isig unverifiable tt
+         (firstn 2 (compare_hash_unfixed isig xhash (xblk 5) liar5 0 ++ [M_benign isig])) false [])
+    = DD_trusted [0%nat] /\
+  fst (detect_loop isig unverifiable tt
+         (firstn 2 (compare_hash isig xhash (xblk 5) liar5 0 ++ [M_benign isig])) false [])
+    = DD_crossref [0%nat].
+Proof. vm_compute. repeat split; reflexivity. Qed.
+
+(* ---- F23: why backwards needs the final comparison ------------------------------------------- *)
+
+(* forged, self-consistent block for height 2 (other hash) *)
+Definition forged2 : lblock isig := xblk_with 2 777 15 [].
+
+(* an equivocating primary: the first request for height 2 is answered with the forged block,
+   all later requests with the genuine chain *)
+Definition ask_equiv (w : bool) (p : pid) (h : Z) : preply isig * bool :=
+  if (p =? 1) && (h =? 2) && negb w then (P_block isig forged2, true)
+  else (fst (ask_honest tt p h), w).
+
+(* A client rooted at height 4 is asked for height 2.  The primary's forged block is fetched, the
+   hash-chain walk 4 -> 3 -> 2 is done with freshly fetched genuine headers.  Unrepaired code:
+   success, i.e. the forged block would be stored.  Repaired code: ErrInvalidHeader, nothing
+   stored. *)
+Example C09_backwards_refuted_unfixed :
+  let c4 := {| cl_primary := 1; cl_witnesses := [2; 3]; cl_store := [xblk 4]; cl_latest := Some (xblk 4) |} in
+  fst (fst (backwards_unfixed isig xhash bool ask_equiv xrank 10 c4 (s0 true) (lb_hdr isig (xblk 4)) (lb_hdr isig forged2)))
+    = None /\
+  fst (fst (backwards isig xhash bool ask_equiv xrank 10 c4 (s0 true) (lb_hdr isig (xblk 4)) (lb_hdr isig forged2)))
+    = Some X_back_invalid /\
+  (match verify_at isig ideal_verify xhash xvhash xbid bool ask_equiv xrank xP c4 (s0 false) 2 60 with
+   | (e, c', _) => (e, map (lb_hash isig xhash) (cl_store isig c'))
+   end) = (Some X_back_invalid, [104]) /\
+  (* with an honest primary the same call stores the genuine header 2 *)
+  (match verify_at isig ideal_verify xhash xvhash xbid unit ask_honest xrank xP c4 (s0 tt) 2 60 with
+   | (e, c', _) => (e, map (lb_hash isig xhash) (cl_store isig c'))
+   end) = (None, [102; 104]).
+Proof. vm_compute. repeat split; reflexivity. Qed.
+
+(* ---- the detector: non-vacuity ----------------------------------------------------------------- *)
+
+(* witness 2 serves a fork block for height 5 signed by set B (more than 1/3 of the trusted set
+   of height 3): the witness can back it from the common block 3, so the client halts with the
+   attack error and reports evidence; witness 3 never gets to confirm *)
+Definition fork5 : lblock isig := xblk_with 5 555 50 setB.
+Definition ask_fork (w : unit) (p : pid) (h : Z) : preply isig * unit :=
+  if (p =? 2) && ((h =? 5) || (h =? 0)) then (P_block isig fork5, w) else ask_honest w p h.
+
+Example C09_attack_nonvacuous :
+  let c3 := {| cl_primary := 1; cl_witnesses := [2; 3]; cl_store := [xblk 3]; cl_latest := Some (xblk 3) |} in
+  (match verify_at isig ideal_verify xhash xvhash xbid unit ask_fork xrank xP c3 (s0 tt) 5 60 with
+   | (e, c', s') => (e, map (lb_height isig) (cl_store isig c'),
+                     map (fun pe => (fst pe, lb_hash isig xhash (ev_block isig (snd pe)), ev_common isig (snd pe)))
+                         (st_ev isig unit s'))
+   end) = (Some X_attack, [3], [(1, 555, 5); (2, 105, 5)]) /\
+  (* a liar that cannot back its header is removed and the honest witness confirms *)
+  (match verify_at isig ideal_verify xhash xvhash xbid unit
+           (fun w p h => if (p =? 2) && (h =? 5) then (P_block isig liar5, w) else ask_honest w p h)
+           xrank xP c3 (s0 tt) 5 60 with
+   | (e, c', _) => (e, map (lb_height isig) (cl_store isig c'), cl_witnesses isig c')
+   end) = (None, [3; 5], [3]) /\
+  (* liar + silent witness: no confirmation, nothing stored *)
+  (match verify_at isig ideal_verify xhash xvhash xbid unit
+           (fun w p h => if (p =? 2) && (h =? 5) then (P_block isig liar5, w)
+                         else if p =? 3 then (P_err isig PE_no_response, w) else ask_honest w p h)
+           xrank xP c3 (s0 tt) 5 60 with
+   | (e, c', _) => (e, map (lb_height isig) (cl_store isig c'), cl_witnesses isig c')
+   end) = (Some X_crossref, [3], [3]).
+Proof. vm_compute. repeat split; reflexivity. Qed.
